@@ -23,7 +23,9 @@ EXTENDS Naturals, Sequences, FiniteSets, SequencesExt, FiniteSetsExt, TLC, Json
 
 CONSTANTS Conns,       \* sequence of [proto, c, s, c2, odcid, ccid, scid, ncid]  (addresses <<host, port>>, CIDs = sequences of bytes)
           Repaired,
-          ServerPorts
+          ServerPorts,
+          Late         \* QUIC connections whose handshake lies BEFORE the capture start: only their short-header packets (4..6) are captured.
+                       \* They get no session; their packets must reach no other connection's session either.
 
 N == Len(Conns)
 IsPrefixOf(a, b) == Len(a) <= Len(b) /\ SubSeq(b, 1, Len(a)) = a
@@ -135,7 +137,7 @@ Deliver(i) ==
                         /\ UNCHANGED dropped
                 ELSE dropped' = dropped \cup {<<i, k>>} /\ UNCHANGED <<sessions, delivered>>
 
-Init == pos = [i \in 1..N |-> 0] /\ sessions = <<>> /\ delivered = <<>> /\ dropped = {} /\ order = <<>>
+Init == pos = [i \in 1..N |-> IF i \in Late THEN 3 ELSE 0] /\ sessions = <<>> /\ delivered = <<>> /\ dropped = {} /\ order = <<>>
 Next == \E i \in 1..N : Deliver(i)
 Spec == Init /\ [][Next]_vars
 
@@ -143,7 +145,7 @@ Spec == Init /\ [][Next]_vars
 \* every packet handed to a session belongs to the connection that created it, arrives with its real DCID and the
 \* real direction, and nothing of a connection is dropped or handed to another session
 DeliveredIsOwn ==
-  /\ dropped = {}
+  /\ \A x \in dropped : x[1] \in Late
   /\ \A j \in 1..Len(sessions) : \A n \in 1..Len(delivered[j]) :
        LET e == delivered[j][n]  p == Script(e.conn)[e.k] IN
        /\ e.conn = sessions[j].conn
